@@ -343,7 +343,7 @@ theorem importNames_ev (lb : Token) : ∀ (more : List (Token × Token)) (first 
     simp only [PRes.bind_ok]
     rw [importNames_ev lb more p.2 (acc ++ [first]) _ nxt rest g rfl hp.2
       (fun q hq => hm q (List.mem_cons_of_mem _ hq)) hn (by simp at hl ⊢; omega) (by simp at hg; omega)]
-    simp [advs, adv, moreToks]
+    simp [advs, moreToks]
 
 theorem procParams_ev : ∀ (more : List (Token × Token)) (first : Token) (acc : List (Str × Token))
     (s : PState) (nxt : Token) (rest : List Token) (g : Nat),
@@ -373,7 +373,7 @@ theorem procParams_ev : ∀ (more : List (Token × Token)) (first : Token) (acc 
     simp only [PRes.bind_ok]
     rw [procParams_ev more p.2 (acc ++ [(first.lexeme, first)]) _ nxt rest g rfl hp.2
       (fun q hq => hm q (List.mem_cons_of_mem _ hq)) hn (by simp at hl ⊢; omega) (by simp at hg; omega)]
-    simp [advs, adv, moreToks]
+    simp [advs, moreToks]
 
 /-! ## the three IMPORT forms (the cursor stands behind `IMPORT`) -/
 
@@ -392,7 +392,7 @@ theorem importStatement_all_ev (g : Nat) {s : PState} {it mt mn : Token} {term :
   simp only [PRes.bind_ok]
   rw [terminator_ev "import_semicolon" false (s := adv (adv s mt _) mn (term.toList ++ rest)) (term := term)
     (rest := rest) rfl hterm hfol]
-  simp [advs, adv]
+  simp [advs]
 
 theorem importStatement_one_ev (g : Nat) {s : PState} {it n ft mt mn : Token} {term : Option Token}
     {rest : List Token} (h : s.after = n :: ft :: mt :: mn :: (term.toList ++ rest))
@@ -413,7 +413,7 @@ theorem importStatement_one_ev (g : Nat) {s : PState} {it n ft mt mn : Token} {t
   simp only [PRes.bind_ok]
   rw [terminator_ev "import_semicolon" false (s := adv (adv (adv (adv s n _) ft _) mt _) mn (term.toList ++ rest))
     (term := term) (rest := rest) rfl hterm hfol]
-  simp [advs, adv]
+  simp [advs]
 
 theorem importStatement_list_ev {s : PState} {it lb rb ft mt mn : Token} {ns : SepList} {term : Option Token}
     {rest : List Token} (h : s.after = lb :: (ns.toks ++ rb :: ft :: mt :: mn :: (term.toList ++ rest)))
@@ -439,7 +439,7 @@ theorem importStatement_list_ev {s : PState} {it lb rb ft mt mn : Token} {ns : S
   rw [consume_hit (t := mn) (r := term.toList ++ rest) _ rfl hmn (by decide)]
   simp only [PRes.bind_ok]
   rw [terminator_ev "import_semicolon" false (term := term) (rest := rest) rfl hterm hfol]
-  simp [advs, adv, SepList.toks, SepList.items]
+  simp [advs, SepList.toks, SepList.items]
 
 /-! ## compound statements (the cursor stands behind the keyword that selected the form) -/
 
@@ -562,7 +562,7 @@ theorem forEach_ev {s : PState} {ft et it int nxt : Token} {b : List Token} {l :
   dsimp only at hf2 ⊢
   have hst : advs (adv (adv (adv s et (it :: int :: (l.toks ++ nxt :: r1))) it (int :: (l.toks ++ nxt :: r1)))
       int (l.toks ++ nxt :: r1)) l.toks (nxt :: r1) = advs s (et :: it :: int :: l.toks) (nxt :: r1) := by
-    simp [advs, adv]
+    simp [advs]
   simp only [P.forEach]
   rw [confirm_eq hb hft]
   simp only [PRes.bind_ok]
@@ -631,7 +631,7 @@ theorem procTail_ev {s : PState} {pt nt lp rp : Token} {exported : Bool} {ps : O
     have h' : s.after = nt :: lp :: rp :: r1 := by simpa [SepList.toksO] using h
     have hst : ({ adv (adv (adv s nt (lp :: rp :: r1)) lp (rp :: r1)) rp r1 with inFn := true, inLoop := false } : PState)
         = { advs s (nt :: lp :: (SepList.toksO none ++ [rp])) r1 with inFn := true, inLoop := false } := by
-      simp [advs, adv, SepList.toksO]
+      simp [advs, SepList.toksO]
     dsimp only
     unfold procTail
     rw [consume_hit _ h' hnt (by decide)]
@@ -645,7 +645,7 @@ theorem procTail_ev {s : PState} {pt nt lp rp : Token} {exported : Bool} {ps : O
     rw [consume_hit (t := rp) (r := r1) _ rfl hrp (by decide)]
     simp only [PRes.bind_ok]
     rw [hst, hf2 g hg]
-    simp [paramsOf, advs, adv]
+    simp [paramsOf]
   | some l =>
     obtain ⟨hl, hlen⟩ := hps l rfl
     refine ⟨max f2 (l.more.length + 1), fun g hg => ?_⟩
@@ -655,7 +655,7 @@ theorem procTail_ev {s : PState} {pt nt lp rp : Token} {exported : Bool} {ps : O
           (l.first :: (moreToks l.more ++ rp :: r1))) (l.first :: moreToks l.more) (rp :: r1)) rp r1
           with inFn := true, inLoop := false } : PState)
         = { advs s (nt :: lp :: (SepList.toksO (some l) ++ [rp])) r1 with inFn := true, inLoop := false } := by
-      simp [advs, adv, SepList.toksO, SepList.toks]
+      simp [advs, SepList.toksO, SepList.toks]
     dsimp only
     unfold procTail
     rw [consume_hit _ h' hnt (by decide)]
@@ -671,7 +671,7 @@ theorem procTail_ev {s : PState} {pt nt lp rp : Token} {exported : Bool} {ps : O
     rw [consume_hit (t := rp) (r := r1) _ rfl hrp (by decide)]
     simp only [PRes.bind_ok]
     rw [hst, hf2 g (by omega)]
-    simp [paramsOf, SepList.items, advs, adv]
+    simp [paramsOf, SepList.items, advs]
 
 /-! ## blocks and the two statement loops -/
 
